@@ -44,6 +44,27 @@ Theorem C14_normalize_sorted : forall a lo hi, ssorted a -> (2 <= length a)%nat 
 Proof. exact normalize_sorted. Qed.
 Print Assumptions C14_normalize_sorted.
 
+(** ======== Weaver level (class Weaver in weaver.py; model coq/Model/Weaver.v) ======== *)
+From TW Require Import Model.WeaverSpec Model.Interval Proofs.WeaverLevelProofs.
+Theorem C14_weaver_shift_scale : forall s v,
+  step s (OShiftX v) = (set_rx (set_x s (map (fun a => a + v) (wx s))) (map (fun a => a + v) (wrx s)), Ok tt) /\
+  step s (OShiftY v) = (set_ry (set_y s (map (fun a => a + v) (wy s))) (map (fun a => a + v) (wry s)), Ok tt) /\
+  step s (OScaleX v) = (set_rx (set_x s (map (fun a => a * v) (wx s))) (map (fun a => a * v) (wrx s)), Ok tt) /\
+  step s (OScaleY v) = (set_ry (set_y s (map (fun a => a * v) (wy s))) (map (fun a => a * v) (wry s)), Ok tt).
+Proof. exact weaver_shift_scale. Qed.
+Print Assumptions C14_weaver_shift_scale.
+
+Theorem C14_weaver_trend : forall s f nrm s', step s (OTrend f nrm) = (s', Ok tt) ->
+  wx s' = wx s /\ wy s' = snd (trend f nrm (wx s) (wy s)) /\ wrx s' = wrx s /\ wry s' = wry s /\ wox s' = wox s /\ woy s' = woy s.
+Proof. exact weaver_trend. Qed.
+Print Assumptions C14_weaver_trend.
+
+Theorem C14_weaver_normalize : forall s lo hi s', step s (ONormX lo hi) = (s', Ok tt) ->
+  wx s' = normalize (wx s) lo hi /\ wrx s' = normalize (wrx s) lo hi /\ wox s' = normalize (wox s) lo hi /\
+  wy s' = wy s /\ wry s' = wry s /\ woy s' = woy s.
+Proof. exact weaver_normalize_x. Qed.
+Print Assumptions C14_weaver_normalize.
+
 Example C14_example :
   list_eqb Qc_eqb (normalize [qz 2; qz 4; qz 3] (qz 10) (qz 20)) [qz 10; qz 20; qz 15] = true.
 Proof. vm_compute. reflexivity. Qed.
